@@ -261,6 +261,20 @@ def compare_paths(code: List[Path], spec: List[Path], view: View, stats: Optiona
                     if m.diff not in seen_keys:
                         seen_keys.add(m.diff)
                         out.append(m)
+    # the other direction: a region the reference handles but no code path reaches (the code asserts it away)
+    if depth == 0 or True:
+        for ps, os_ in zip(spec, souts):
+            if os_.dontcare_all:
+                continue
+            sl = [(a, pol) for a, pol, _ in ps.lits]
+            if solve(sl, view.integer_dims) is None:
+                continue
+            if not any(solve(sl + [(a, pol) for a, pol, _ in pc.lits], view.integer_dims) is not None for pc in code):
+                d = 'no code path covers the region [%s] that the property handles (asserted away or missing branch)' % ps.cond_str()
+                if d not in seen_keys and code:
+                    seen_keys.add(d)
+                    out.append(Mismatch(code[0], ps, {}, couts[0].canon(), os_.canon(), d,
+                                        code[0].lits[-1][2] if code[0].lits else code[0].exit_line))
     return out
 
 
